@@ -244,7 +244,7 @@ def eval_shard(path):
 def eval_cases(rundir):
     shards = sorted(glob.glob(os.path.join(rundir, "cases_*.v")))
     mism, broken = [], []
-    with ThreadPoolExecutor(max_workers=14) as ex:
+    with ThreadPoolExecutor(max_workers=int(os.environ.get("VERIF_JOBS", "14"))) as ex:
         for path, (ids, o) in zip(shards, ex.map(eval_shard, shards)):
             if ids is None:
                 broken.append((path, o[-2000:]))
